@@ -33,3 +33,55 @@ func C14_Channel[T signal.SignalTypes]() {
 	vf.Assert("read-back-through-view", vf.SameBits(ch.Sample(i), v))
 	vf.Assert("parent-shape", parent.Len() == C*(e-s) && parent.Cap() == C*(K-s))
 }
+
+// C14_Follows: the view keeps addressing its parent after the parent's length changed, also for
+// unaligned parent lengths (a partly filled last frame counts for every channel's length).
+func C14_Follows[T signal.SignalTypes]() {
+	C, K := shape()
+	if K == 0 {
+		return
+	}
+	base := allocAny[T](C, K, "base")
+	s := vf.Pick("s", 0, K-1)
+	e := vf.Pick("e", s, K-1) // at least one spare frame behind the window
+	parent := base.Slice(s, e)
+	c := vf.Pick("c", 0, C-1)
+	ch := parent.Channel(c)
+	extra := vf.Pick("extra", 1, C) // 1..C single samples: partial and then complete new frame
+	for n := 0; n < extra; n++ {
+		parent.AppendSample(vf.Any[T]("x"))
+	}
+	vf.Cover("grown")
+	L := parent.Length()
+	vf.Assert("parent-length-is-ceil", L == e-s+1)
+	vf.Assert("view-length-follows-parent", ch.Length() == L)
+	vf.Assert("view-capacity-follows-parent", ch.Capacity() == parent.Capacity())
+	// the new frame is addressable through the view when its sample of channel c exists
+	if c < extra {
+		i := e - s
+		pos := C*(s+i) + c
+		vf.Assert("view-reads-appended-frame", vf.SameBits(ch.Sample(i), base.Sample(pos)))
+		v := vf.Any[T]("v")
+		ch.SetSample(i, v)
+		vf.Assert("view-writes-appended-frame", vf.SameBits(base.Sample(pos), v))
+		vf.Assert("parent-sees-view-write", vf.SameBits(parent.Sample(C*i+c), v))
+	}
+}
+
+// C14_FollowsGrowth: after a growing Append moved the parent to new storage the view addresses the new storage.
+func C14_FollowsGrowth[T signal.SignalTypes]() {
+	C := vf.Pick("C", 1, vf.Param("MaxC", 3))
+	parent := allocAny[T](C, 1, "p")
+	c := vf.Pick("c", 0, C-1)
+	ch := parent.Channel(c)
+	more := allocAny[T](C, vf.Pick("k", 1, 2), "more")
+	parent.Append(more)
+	vf.Cover("moved")
+	vf.Assert("view-length-follows-parent", ch.Length() == parent.Length())
+	vf.Assert("view-capacity-follows-parent", ch.Capacity() == parent.Capacity())
+	i := vf.IntRange("i", 0, parent.Length()-1)
+	v := vf.Any[T]("v")
+	ch.SetSample(i, v)
+	vf.Assert("parent-sees-view-write", vf.SameBits(parent.Sample(C*i+c), v))
+	vf.Assert("view-reads-parent", vf.SameBits(ch.Sample(i), v))
+}
